@@ -77,7 +77,7 @@ def random_model(rng, tier):
             start += nidx
         lods.append(meshes)
     bones = ["j_kosi", "j_sebo_a", "n_hara"][:rng.randint(0, 3)]
-    bts = [[rng.randrange(3) for _ in range(rng.randint(1, 64))] for _ in range(rng.randint(0, 2))] if version == 5 else []
+    bts = [[rng.randrange(3) for _ in range(rng.randint(1, 64))] for _ in range(rng.randint(0, 3))]
     m = mdlcases.model(rng, version, lods, materials=["/mt_c0101e0000_top_%s.mtrl" % c for c in "abc"[:nmat]], bones=bones, bone_tables=bts)
     # shapes: values inside the index range of a mesh of LOD 0 (names only are compared)
     shapes = []
@@ -110,9 +110,9 @@ def check(run):
     late = mdlcases.mesh(rng, [(0, 2, 0), (7, 8, 0)], 0, 4, [3, 2, 1, 0, 1, 2], 2, 65541)
     cases.append(parse_case(n, mdlcases.model(rng, 5, [[big, late]]), {"late mesh": "start index 65541"})); n += 1
     # vertex streams of 64 KiB and more (count x stride does not fit 16 bits), followed by a second mesh
-    wide = mdlcases.mesh(rng, [(0, 2, 0), (7, 8, 1)], 0, 5462, [0, 1, 2, 5461, 5460, 3000], 1, 0)
+    wide = mdlcases.mesh(rng, [(0, 2, 0), (7, 8, 1)], 0, 6000, [0, 1, 2, 5999, 5998, 5462], 1, 0)
     after = mdlcases.mesh(rng, [(0, 2, 0), (3, 14, 0)], 0, 3, [2, 1, 0], 1, 6)
-    cases.append(parse_case(n, mdlcases.model(rng, 5, [[wide, after]]), {"wide stream": "5462 vertices x 12 bytes = 65544"})); n += 1
+    cases.append(parse_case(n, mdlcases.model(rng, 5, [[wide, after]]), {"wide stream": "6000 vertices x 12 bytes = 72000 (vertex offsets beyond 65535)"})); n += 1
     fx = open(REPO + "/resources/tests/c0201e0038_top_zeroed.mdl", "rb").read()
     run.notes["fixture_bytes"] = len(fx)
     run.rule = ("every declaration of the bounded family enumerated by TLC (each supported (usage, type) pair alone on each stream, "
@@ -122,7 +122,7 @@ def check(run):
                 "(versions 5/6, 1..3 LODs, 1..4 meshes, 1..4 elements, sub-meshes, bone tables, shapes); distinct by bytes, all non-trivial")
     run.conform(cases, MODULE, CFG, shards=14, xmx="6g")
     run.assumptions = ["(BlendWeights, Byte4) is not generated (no documented meaning; the writer marks it WRONG)",
-                       "version-6 models are generated without bone tables (table layout unverifiable offline)",
+                       "version-6 bone tables are laid out the way the library reads them (unverifiable offline): this part can show regressions, not findings",
                        "header flag bytes are values the parser's enums accept; shapes are compared by name only",
                        "the repository's sample model (287 KB) is exercised by C07's write check, not decoded by TLC here"]
 
